@@ -654,7 +654,7 @@ func cacheSchedCases(r *lib.RNG, thorough bool) []*CacheCase {
 		if s.sample == 0 || thorough {
 			max := 0
 			if thorough && s.sample != 0 {
-				max = 40000
+				max = 20000
 			}
 			interleavings(counts, ids, max, func(sch []int) {
 				out = append(out, &CacheCase{Name: fmt.Sprintf("l1cache-sched-%d-%d", si, len(out)), Family: "l1cache-sched",
@@ -920,7 +920,7 @@ func runCacheFamilies(f lib.Flags, res *lib.Result, drv *lib.Driver, r *lib.RNG,
 		}
 	}
 	// free-running rounds
-	rounds := f.Scale(1500, 20000)
+	rounds := f.Scale(1500, 10000)
 	if only != nil {
 		rounds = 0
 		if only.Family == "l1cache-free" {
